@@ -18,7 +18,7 @@ STATKEY = [('O', 'Opens'), ('U', 'Updates'), ('N', 'Notifications'), ('K', 'Keep
 
 
 # model-level REST request kinds (Session.tla, action Rest) -> the real request and its description for the C16 clauses
-_RQ0 = {'cls': '', 'valid': False, 'etype': '', 'wdn': 0, 'nln': 0, 'ats': [], 'ibgp': False, 'lp': -1, 'aspl': -1}
+_RQ0 = {'cls': '', 'valid': False, 'etype': '', 'wdn': 0, 'nln': 0, 'ats': [], 'ibgp': False, 'lp': -1, 'aspl': -1, 'rr': [-1, -1, -1]}
 _UPD_BODY = {'attr': {'1': 0, '2': [[2, [65001]]], '3': '10.0.0.1'}, 'nlri': ['10.5.0.0/16']}
 REST_KINDS = {
     'SEND_UPDATE': ('send/update', 'POST', 'good', _UPD_BODY, dict(_RQ0, cls='send', valid=True, etype='UPDATE', nln=1, ats=[1, 2, 3])),
@@ -158,6 +158,8 @@ class Recorder(object):
         r = {'c': d['c'], 'type': d['type'], 'code': d['code'], 'sub': d['sub'], 'len': d['len']}
         if d['type'] == 'UPDATE':
             r.update(wdn=d.get('wdn', -1), nln=d.get('nln', -1), ats=d.get('ats', []), lp=d.get('lp', -1), aspl=d.get('aspl', -1))
+        # (ROUTE-REFRESH: address family, reserved octet, subsequent address family as written)
+        r['rr'] = [d.get('afi', -1), d.get('res', -1), d.get('safi', -1)] if d['type'] == 'RR' else [-1, -1, -1]
         if d['type'] == 'OPEN':
             r.update(wf=bool(d.get('wf')), ver=d.get('ver', 0), my_as=d.get('my_as', 0), hold=d.get('hold', 0),
                      as_hi=d.get('as_hi', 0), as_lo=d.get('as_lo', 0), id_hi=d.get('id_hi', 0), id_lo=d.get('id_lo', 0),
